@@ -16,6 +16,7 @@ EXPLANATION = (
     "_to_build_calls. MAP: a mappable register resolves traps in declared qubit order and index-based targeting indexes the register's qubit order. NOT decided: equality of the built sequences (runtime). ARGS: queries on a parametrized sequence read the stored calls' positional arguments by constant index only where the argument must be positional, and keywords only where the parameter cannot have been positional. Round 3 (added): every return of build() is a freshly constructed sequence (never the shallow copy of the template); _set_register retargets every Global channel (no other exclusion); a by-name search of the call record covers _calls and _to_build_calls (one frozen exception: declared_channels)."
     ' Round 4 (added): a list key stored by Variable.__getitem__ requires VariableItem to define its own __hash__ (targets are collected in sets).'
     " Round 5 (added): build resolves the register under `qubits is not None`; align checks names against declared_channels; the SLM-DMM 'waiting for first pulse' guard is evaluated only when not parametrized; _set_register adds the explicit phase-shift targets to the used qubits; build evaluates Parametrized members of collection arguments (KNOWN finding)."
+    ' Round 6 (added after the fifth independent round of breaking changes): a hand-made call record (append(_Call(...))) goes to _to_build_calls only under is_parametrized() and to _calls otherwise (declare_channel / set_magnetic_field are always regular, with reasons); the recorded phase-shift targets scanned by _set_register are call.args[1:] (args[0] is the angle).'
 )
 ASSUMPTIONS = ["effects are tracked at (class, field) granularity with fresh/self roots", "formulas, guards and sibling code are matched on the symbolic normal form (pstatic/sym.py): temporaries, private helpers, conditional forms and operand order do not matter; state mutation between two reads of one access path is not modelled (orderings are taken from the program order of the logged calls)"]
 
